@@ -84,8 +84,7 @@ def rule_r1(rep, program: Program, prop=PROP, rule="R1", only_inplace=False):
     r = rep.rule(rule, "matrices.py: only guarded lazy slots are assigned outside constructors; no in-place mutation of anything that may alias an operand, parameter or attribute", floor=150)
     slots = set()
     for f in matrix_functions(program):
-        if f.cls is None:
-            continue
+        # module-level helpers take part in clause (b): they receive the caller's arrays too
         local_defs = {}
         for n in ast.walk(f.node):
             if isinstance(n, ast.Assign) and len(n.targets) == 1 and isinstance(n.targets[0], ast.Name):
@@ -113,7 +112,7 @@ def rule_r1(rep, program: Program, prop=PROP, rule="R1", only_inplace=False):
                 local_defs.setdefault(n.target.id, []).append(n.value)
         r.inst({"function": f.qualname}, exercised=True)
         # ---- (a) attribute stores outside constructors
-        if f.name != "__init__" and not only_inplace:
+        if f.cls is not None and f.name != "__init__" and not only_inplace:
             for n in ast.walk(f.node):
                 tg = []
                 if isinstance(n, ast.Assign):
